@@ -2,7 +2,7 @@
 C19-CLEAR, C19-ZERO, C19-GEN, C19-WRITERS, C19-PREF (DESIGN.md §3)."""
 import itertools
 
-from facts import (norm, show, walk, strip_refs, is_call_to, callee_name, find_calls, guard_conditions,
+from facts import (switch_edge_conds, norm, show, walk, strip_refs, is_call_to, callee_name, find_calls, guard_conditions,
                    option_guard, place_fields, deep_strip, cmp_op)
 
 EXPLANATION = (
@@ -117,6 +117,25 @@ def stores(fx, body):
     return out
 
 
+def admitting_edges(ins, idx, dataarg):
+    """(empty_edges, policy_edges): the switch edges of `insert` taken when slot `idx` is empty, and those taken when
+    `existing.data.should_overwrite_with(&data)` is true."""
+    emp, pol_edges = [], []
+    for a in sorted(ins.live_blocks()):
+        for (tgt, e, pol, v) in switch_edge_conds(ins, a):
+            og = option_guard(e, pol)
+            if og is not None:
+                inner, p = og
+                sl = slot_of(inner) or slot_of(("deref", inner))
+                if sl and sl[0] == idx and sl[1] is None and p is False:
+                    emp.append((a, tgt))
+            if isinstance(e, tuple) and e and e[0] == "call" and isinstance(e[1], str) and e[1].endswith("should_overwrite_with") and pol is True:
+                sx = slot_of(e[2][0])
+                if sx and sx[1] == "data" and sx[0] == idx and strip_refs(e[2][1]) == dataarg:
+                    pol_edges.append((a, tgt))
+    return emp, pol_edges
+
+
 def rule_policy(fx, rep):
     ok = True
     ins = fx.one("TranspositionTable::insert")
@@ -150,22 +169,13 @@ def rule_policy(fx, rep):
             elif strip_refs(d) != dataarg:
                 good, why = False, f"the stored data is `{show(d)[:60]}`, not the `data` argument"
         if good:
-            # guard: slot empty, or should_overwrite_with(existing.data, &data) true
-            mode = None
-            for (e, pol, where) in guard_conditions(ins, bb, expand_named=True):
-                og = option_guard(e, pol)
-                if og is not None:
-                    inner, p = og
-                    sl = slot_of(inner) or slot_of(("deref", inner))
-                    if sl and sl[0] == idx and sl[1] is None and p is False:
-                        mode = "empty"
-                if isinstance(e, tuple) and e[0] == "call" and e[1].endswith("should_overwrite_with") and pol is True:
-                    sx = slot_of(e[2][0])
-                    if sx and sx[1] == "data" and sx[0] == idx and strip_refs(e[2][1]) == dataarg:
-                        mode = mode or "policy"
-            if mode is None:
+            # guard: every path to the store enters through the empty-slot edge or through the edge on which
+            # should_overwrite_with(existing.data, &data) is true (the two may be separate arms or one join)
+            emp_e, pol_e = admitting_edges(ins, idx, dataarg)
+            if bb in ins.reachable(0, removed_edges=emp_e + pol_e):
                 good, why = False, "the store is neither in the empty-slot arm nor guarded by `existing.data.should_overwrite_with(&data)`"
-            elif mode == "empty":
+            elif bb in ins.reachable(0, removed_edges=pol_e):
+                # reachable through the empty-slot edge
                 empties.append(bb)
         rep.obligation(good)
         rep.sample({"rule": "C19-POLICY", "store_line": line, "ok": good})
@@ -181,22 +191,17 @@ def rule_policy(fx, rep):
     if good:
         ib, e, line = incs[0]
         adds = [x for x in walk(e) if isinstance(x, tuple) and x[0] == "binop" and x[1].startswith("Add") and x[3] == ("const", 1) and self_field(x[2], "occupied")]
-        # same arm: the increment block and the empty-arm store dominate one another in sequence
-        good = bool(adds) and (ins.block_dominates(ib, empties[0]) or ins.block_dominates(empties[0], ib))
-        if good:
-            first, second = (ib, empties[0]) if ins.block_dominates(ib, empties[0]) else (empties[0], ib)
-            good = ins.must_pass(first, [second], ins.return_blocks())
-            # and the increment is itself in the empty arm
-            emp = False
-            for (ge, pol, where) in guard_conditions(ins, ib, expand_named=True):
-                og = option_guard(ge, pol)
-                if og and og[1] is False and (slot_of(og[0]) or slot_of(("deref", og[0]))):
-                    emp = True
-            good = good and emp
+        idx0 = st[0][1]
+        emp_e, pol_e = admitting_edges(ins, idx0, dataarg)
+        # the increment happens only on the empty-slot side ...
+        good = bool(adds) and bool(emp_e) and ib not in ins.reachable(0, removed_edges=emp_e)
+        # ... and every run that takes the empty-slot edge both increments and stores before returning
+        for (a, tgt) in emp_e:
+            good = good and ins.must_pass(tgt, [ib], ins.return_blocks()) and ins.must_pass(tgt, [empties[0]], ins.return_blocks())
     rep.obligation(good)
     if not good:
         bad("occupied", f"`occupied` is not incremented by exactly 1 exactly when an empty slot is filled (increments: {[(x[0], show(x[1])[:60]) for x in incs]}, empty-arm stores: {empties})")
-    rep.rule("C19-POLICY", n, 3, ok, "stores of insert guarded by emptiness or the replacement predicate; occupied on first fill")
+    rep.rule("C19-POLICY", n, 2, ok, "stores of insert guarded by emptiness or the replacement predicate; occupied on first fill")
 
 
 def rule_idx(fx, rep):
@@ -237,7 +242,7 @@ def rule_idx(fx, rep):
                 ok = False
                 rep.obligation(False)
                 rep.violation("C19-IDX", f"C19-IDX/{fn}/resize", f"`{fn}` changes the table's length ({cn}) while an index is live", {"fn": b.name, "file": b.file, "line": t.get("line")})
-    rep.rule("C19-IDX", n, 5, ok, "slot index provenance")
+    rep.rule("C19-IDX", n, 4, ok, "slot index provenance")
 
 
 def const_writes(body, field):
